@@ -62,19 +62,21 @@ def type_at(z, t):
         if z["unix"][i] <= t: r = z["type"][i]
     return r
 def clamp(v): return max(I64MIN, min(I64MAX, v))
-def wf(z):
+def wf(z, spacing=True):
     N = z["N"]; po = pre_off(z)
     if not (z["unix"][0] < 0 <= z["unix"][N - 1]): return False
     if any(abs(u) > (1 << 59) for u in z["unix"]): return False
     for i in range(1, N):
-        if z["unix"][i] - z["unix"][i - 1] <= abs(po[i] - po[i - 1]) + abs(po[i + 1] - po[i]): return False
+        if not z["unix"][i - 1] < z["unix"][i]: return False
+        if not z["unix"][i - 1] + po[i] < z["unix"][i] + po[i + 1]: return False          # civil order (Load rejects otherwise)
+        if spacing and z["unix"][i] - z["unix"][i - 1] <= abs(po[i] - po[i - 1]) + abs(po[i + 1] - po[i]): return False
     return True
 
 P400 = 146097 * 86400
-def wf_ext(z):
+def wf_ext(z, spacing=True):
     """extended table: last_year_ is the year shown at the last transition, and the table reaches back over 400 years"""
     N = z["N"]; lastcs = z["unix"][N - 1] + z["off"][z["type"][N - 1]]
-    return wf(z) and cal.from_sec(lastcs)[0] == z["last_year"] and abs(z["last_year"]) <= (1 << 40) and \
+    return wf(z, spacing) and cal.from_sec(lastcs)[0] == z["last_year"] and abs(z["last_year"]) <= (1 << 40) and \
            z["unix"][0] <= z["unix"][N - 1] - (P400 + 2 * 366 * 86400)
 def check_break(z, nat, t):
     if z.get("ext") and t >= z["unix"][-1]:
@@ -110,7 +112,8 @@ def check_make(z, nat, cs):
 def check_case(z, kind):
     """kind: break | make | roundtrip | order | next | prev ; returns description of a violation or None (run in a forked
     child: a crash or hang of the real code on the table is itself the report)"""
-    if not (wf_ext(z) if z.get("ext") else wf(z)): return None
+    spacing = kind in ("make", "roundtrip")       # C02's spacing premise belongs to the civil -> instant direction only
+    if not (wf_ext(z, spacing) if z.get("ext") else wf(z, spacing)): return None
     lib()
     return common.isolated(_check_case, z, kind)
 def _check_case(z, kind):
@@ -130,7 +133,7 @@ def _check_case(z, kind):
             a = nat.make(z["cs1"]); b = nat.make(z["cs2"])
             ca = a[2] if a[0] == 1 else a[1]; cb = b[2] if b[0] == 1 else b[1]
             if z["cs1"] < z["cs2"] and ca > cb: return "convert(%s)=%d > convert(%s)=%d" % (cal.from_sec(z["cs1"]), ca, cal.from_sec(z["cs2"]), cb)
-            return check_make(z, nat, z["cs1"]) or check_make(z, nat, z["cs2"])
+            return (check_make(z, nat, z["cs1"]) or check_make(z, nat, z["cs2"])) if wf(z, True) else None
         if kind in ("next", "prev"):
             N = z["N"]; po = pre_off(z); t = z["t"]
             def eq(a, b): return a == b or (z["off"][a] == z["off"][b] and bool(z["dst"][a]) == bool(z["dst"][b]) and z["abbr"][a] == z["abbr"][b])
@@ -168,7 +171,7 @@ def _ub_exe():
 def check_ub(z):
     """the same table and queries through an ASan+UBSan build of the real code: undefined behaviour the value comparison cannot see"""
     import subprocess
-    if not (wf_ext(z) if z.get("ext") else wf(z)): return None
+    if not (wf_ext(z, False) if z.get("ext") else wf(z, False)): return None
     ops = []
     for t in (z.get("t"),):
         if t is not None and I64MIN <= t <= I64MAX: ops += ["b", str(t), "n", str(t), "p", str(t)]
